@@ -443,6 +443,25 @@ def _np_pinv(A, rcond=None, hermitian=False, *, rtol=None):
     _check_no_nan(Ao, "pinv")
     n, p = Ao.shape
     if n == p:
+        # a cut-off (rcond / rtol) makes pinv differ from the inverse where a direction is dropped. If that happens AT THE WITNESS the inverse
+        # contract does not describe what the code computes there: hand out contract-free symbols carrying the real routine's values, so that
+        # nothing is proved from an inverse that is not one and the obligations are decided at the witness (and replayed)
+        A0w = witness_or_none(A)
+        if A0w is not None:
+            kw = {"hermitian": hermitian}
+            if rcond is not None:
+                kw["rcond"] = rcond
+            if rtol is not None:
+                kw["rtol"] = rtol
+            B0w, I0w = _safe(np.linalg.pinv, A0w, **kw), _safe(np.linalg.inv, A0w)
+            if B0w is not None and I0w is not None and np.all(np.isfinite(I0w)) and not np.allclose(B0w, I0w, rtol=1e-6, atol=1e-9 * float(np.abs(I0w).max())):
+                ck = c.caches.setdefault("pinv-cut", {})
+                key = _key(A)
+                if key not in ck:
+                    ck[key] = sym_array((p, n), f"pinvcut{len(ck)}", reported_dtype(A).kind == "c", B0w, kind="stub")
+                    c.stub_log.append({"stub": "np.linalg.pinv (cut-off drops a direction at the witness: no contract)", "shape": [n, p]})
+                    c.notes.append("pinv with a cut-off that drops a direction at the witness: contract-free symbols")
+                return ck[key]
         return _np_inv(A)
     cache = c.caches.setdefault("pinv", {})
     key = _key(A)
